@@ -27,6 +27,9 @@ class ResObj(object):
         self.name, self.lvl = name, lvl
 
 
+MISSING = object()
+
+
 class World(object):
     def __init__(self):
         self.trace = []
@@ -55,10 +58,14 @@ def make_mw(cache, W, t, label):
 def make_endpoint(W, rid, rk):
     from clastic import Response
 
-    def ep(request, ra=None, rb=None, v=None):
+    def lvl_of(x):
+        # MISSING: no source offered the name; None: the level-1 application registered the value None under it
+        return 0 if x is MISSING else (1 if x is None else getattr(x, 'lvl', -1))
+
+    def ep(request, ra=MISSING, rb=MISSING, v=None):
         if request.args.get('fail'):
             raise ValueError('endpoint %r failing on purpose' % (rid,))
-        info = {'by': list(rid), 'ra': getattr(ra, 'lvl', 0), 'rb': getattr(rb, 'lvl', 0), 'v': v}
+        info = {'by': list(rid), 'ra': lvl_of(ra), 'rb': lvl_of(rb), 'v': v}
         if rk == 'none':
             return Response('[[' + json.dumps(dict(info, render='direct')) + ']]')
         return info
@@ -89,7 +96,7 @@ def make_handler(lvl, takes_ra=False):
         class H(ErrorHandler):
             def render_error(self, request, _error, ra):
                 _error.adapt('text/plain')
-                _error.data = ('[[' + json.dumps({'eh': lvl, 'code': _error.code, 'eh_ra': getattr(ra, 'lvl', -1)}) + ']]').encode('utf8')
+                _error.data = ('[[' + json.dumps({'eh': lvl, 'code': _error.code, 'eh_ra': 1 if ra is None else getattr(ra, 'lvl', -1)}) + ']]').encode('utf8')
                 return _error
     else:
         class H(ErrorHandler):
@@ -148,7 +155,9 @@ def build_nested(rec, W):
                 keep.append(embed_elsewhere(app, W, cache))
             entries.insert(at, SubApplication(ptxt, app, rebind_render=a['rebind'], inherit_slashes=a['inherit']))
         app_mws = [make_mw(cache, W, t, '%d.0.%d' % (k, i)) for i, t in enumerate(a['mws'], 1)]
-        kw = dict(resources=dict((nm, ResObj(nm, k)) for nm in a['res']), middlewares=app_mws,
+        # the outermost application may register the value None under a name: it still wins over inner levels' values
+        none_outer = (k == 1 and (depth + len(rec['table'])) % 3 == 0)
+        kw = dict(resources=dict((nm, None if none_outer else ResObj(nm, k)) for nm in a['res']), middlewares=app_mws,
                   render_factory=make_factory(k) if a['fact'] else None, error_handler=make_handler(k, 'ra' in a['res']),
                   slash_mode=a['slash'])
         if (k + len(entries) + depth) % 2 == 0:
